@@ -4,7 +4,7 @@ import eng_buf
 PROP = "C09"
 NEEDS = {"profiles": ["debug", "release"], "modelrun": True}
 RULE = ("random adapter trees (depth<=4/5; leaves: slice, Bytes x9 representations, BytesMut x5, Cursor incl. position past the end, wrapped VecDeque, "
-        "foreign multi-chunk Buf with empty chunks; Chain/Take/Box/&mut) x scripts of 1-8 cursor ops (remaining, chunk, chunks_vectored dst 0..20, advance, "
+        "foreign multi-chunk Buf with empty chunks; Chain/Take/Box/&mut; one case in six has many tiny chunks - chains of 15..40 leaves under or beside a Take -, one in ten is 1023..5000 bytes long) x scripts of 1-8 cursor ops (remaining, chunk, chunks_vectored dst 0..64, advance, "
         "copy_to_slice, try_copy_to_slice, copy_to_bytes, into_iter, reader, getters, set_limit) with boundary arguments; plus the codec sweep; "
         "non-trivial = distinct case whose tree has an adapter or that ends in a panic")
 ASSUMPTIONS = ["VecDeque::as_slices/drain, io::Cursor, IoSlice behave as modelled (checked by the state comparison on every step)",
